@@ -44,6 +44,9 @@ BVF_BASE = BASE_DECLS + stub_int() + BIT_CONV_STUB + [("decl", "bvf.consts")]
 GROUPS["bvf_shift"] = G("bvf_shift", BVF_PRELUDE,
     BVF_BASE + stub(BVF_CORE) + verify(["bvf.shl_assign", "bvf.shr_assign"]))
 
+GROUPS["bvf_rot"] = G("bvf_rot", BVF_PRELUDE + ["rot.rs"],
+    BVF_BASE + stub(BVF_CORE) + verify(["bvf.rotl", "bvf.rotr"]))
+
 # -------------------------------------------------------------------------------------------------
 # property -> jobs
 TYPES6 = ["u8", "u16", "u32", "u64", "u128", "usize"]
